@@ -70,19 +70,21 @@ type userInfo struct {
 }
 
 type slot struct {
-	n        int
-	gen      int
-	c        *vclient.Client
-	group    string
-	joined   bool
-	user     string
-	evIdx    int
-	vgroup   string          // the group the folded view belongs to (from the last 'joined join')
-	everSeen map[string]bool // ids this connection was ever told about (across its sessions)
-	sessions int             // number of 'joined join' this connection has seen
-	view     map[string]userInfo
-	cur      *conn
-	log      []string
+	n         int
+	gen       int
+	c         *vclient.Client
+	group     string
+	joined    bool
+	user      string
+	evIdx     int
+	vgroup    string          // the group the folded view belongs to (from the last 'joined join')
+	lastGroup string          // the group of the session before the current gap
+	between   []string        // user events received while in no session
+	everSeen  map[string]bool // ids this connection was ever told about (across its sessions)
+	sessions  int             // number of 'joined join' this connection has seen
+	view      map[string]userInfo
+	cur       *conn
+	log       []string
 }
 
 func normPerms(p []string) []string {
@@ -152,11 +154,37 @@ func (sc *scenario) fold(s *slot) {
 		case "joined":
 			switch m.Str("kind") {
 			case "join":
+				// events that arrived between the sessions: leftovers of the session just
+				// left are only delivered when the client is back in a group of the SAME name
+				// (galene drops them while the client is in no group, and filters on the group
+				// name).  If the new session is in another group, they reached a client that
+				// had already been admitted there: an event about one group reached a member
+				// of another.
+				// (A leftover of an EARLIER session in the new group can also arrive here, if
+				// the goroutine that pushes it was held up for two round trips: only events
+				// about somebody who never tried to join the new group are certainly foreign.)
+				if s.lastGroup != "" && m.Str("group") != s.lastGroup {
+					var foreign []string
+					sc.mu.Lock()
+					for _, b := range s.between {
+						if o := sc.ids[b[strings.Index(b, " ")+1:]]; o != nil && !o.tried[m.Str("group")] {
+							foreign = append(foreign, b)
+						}
+					}
+					sc.mu.Unlock()
+					if len(foreign) > 0 {
+						sc.fail("event-from-other-group", fmt.Sprintf("%s left %s and was admitted to %s; before the new session's 'joined' it was sent %d user event(s) about clients that never tried to join %s (%v)", s.c.ID, s.lastGroup, m.Str("group"), len(foreign), m.Str("group"), foreign[:min(len(foreign), 5)]))
+					}
+				}
+				s.between = nil
 				s.view = map[string]userInfo{}
 				s.vgroup = m.Str("group")
 				s.sessions++
 			case "leave":
 				s.view = map[string]userInfo{}
+				if s.vgroup != "" {
+					s.lastGroup = s.vgroup
+				}
 				s.vgroup = ""
 			}
 		case "user":
@@ -167,6 +195,7 @@ func (sc *scenario) fold(s *slot) {
 				// handled back to back - and the group has the same name).  It concerns a list
 				// the client has discarded; the next 'joined join' starts a fresh one.
 				sc.run.Count("user_events_between_sessions", 1)
+				s.between = append(s.between, m.Str("kind")+" "+m.Str("id"))
 				continue
 			}
 			id := m.Str("id")
@@ -194,6 +223,17 @@ func (sc *scenario) fold(s *slot) {
 				sc.run.Count("user_add_events", 1)
 			case "change":
 				if _, ok := s.view[id]; !ok {
+					sc.mu.Lock()
+					wasThere := other != nil && other.tried[s.vgroup]
+					sc.mu.Unlock()
+					if s.sessions > 1 && wasThere {
+						// like a stale 'delete' (below): a change announced, outside the group
+						// lock, to the members found at that moment can reach one of them in a later
+						// session in the same group, when the subject has already left.  A client
+						// ignores changes of unknown ids; so does the fold.
+						sc.run.Count("stale_change_after_rejoin", 1)
+						continue
+					}
 					sc.fail("change-for-absent-id", fmt.Sprintf("%s received 'change' for %s which is not in its list", s.c.ID, id))
 				}
 				s.view[id] = info
@@ -326,6 +366,7 @@ func (sc *scenario) connect(s *slot, r *rand.Rand) {
 	s.everSeen = map[string]bool{}
 	s.sessions = 0
 	s.vgroup = ""
+	s.lastGroup, s.between = "", nil
 	s.view = map[string]userInfo{}
 	s.joined = false
 	s.cur = &conn{slot: s, tried: map[string]bool{}}
@@ -444,16 +485,15 @@ func (sc *scenario) storm(r *rand.Rand, cycles int) {
 			continue
 		}
 		if i < 2 {
-			// resident of gs[i]
-			if s.joined && s.group != gs[i] {
-				if !s.c.Leave(s.group) {
-					continue
-				}
-				s.joined = false
+			// resident of gs[i]: a fresh connection (a new id that has never tried any other
+			// group), so that events about it certainly belong to gs[i]
+			s.c.Close()
+			s.c, s.joined = nil, false
+			sc.connect(s, r)
+			if s.c == nil {
+				continue
 			}
-			if !s.joined {
-				sc.joinAs(s, gs[i], users[i].name, users[i].pw)
-			}
+			sc.joinAs(s, gs[i], users[i].name, users[i].pw)
 			if !s.joined {
 				continue
 			}
